@@ -5,6 +5,26 @@ import json, subprocess
 TECH = "contract-based deductive verification: weakest-precondition VCs generated over go/ssa of the working tree, discharged by z3/cvc5"
 
 CLAIMED = {
+ "C02": dict(
+   text="Proof by contracts on MakeMove, CanEnPassant, IsAttacked/InCheck and the attack tables (C12), for a fully symbolic board and move: quick tier discharges side to move, castling rights (NewCastles vs the rule), halfmove clock, fullmove number, hash-history push and the e.p. field (target recorded iff a legal e.p. capture exists: CanEnPassant == existsLegalEP of the rule spec, 16 colour x file cases; this obligation found defect F1, repaired). The piece-placement clause (all six piece sets and both colour sets equal the rule successor) is discharged in the thorough tier (about 200 s, unsplit). The halfmove clock obligation over mathematical integers fails exactly for clock 127 (int8 wrap): known finding F4.",
+   note="MakeMove is verified under the local precondition `movable` + `lightPos`; lemma movableFromPseudo shows every pseudo-legal move of a valid position satisfies it. Not covered: uci.applyMoves/parseUCIMove (string handling) are not under contract, so the `position ... moves` path relies on C05's gate only; chains of moves follow by induction over the single-step contract (validity preservation lemma not mechanised in this revision).",
+   ref="DESIGN.md section 5 C02"),
+ "C03": dict(
+   text="Null move: MakeNullMove followed by UndoNullMove restores every field and the whole hash history (scenario executed symbolically on both real bodies; quick tier). Real move: the scenario MakeMove;UndoMove on a symbolic board and any movable move (superset of pseudo-legal, incl. moves that leave the king in check) restores placement, side, e.p. target, rights, both counters and the hash history; it runs in the thorough tier only (both bodies inlined, heavy).",
+   note="Nesting to arbitrary depth follows from the single-step round trip by induction (not mechanised). The Reverse token is whatever MakeMove produced (no separate token contract).",
+   ref="DESIGN.md section 5 C03"),
+ "C04": dict(
+   text="Proof: addPiece/removePiece preserve the representation invariant (piece map == piece sets == colour sets) and change the placement fold by exactly the returned key (1792 split cases over square x colour x piece); calculateHash equals the specification hash zhash (loop invariant over the bit loop + fold lemmas), ResetHash installs it; MakeNullMove keeps hash == zhash; MakeMove keeps hash == zhash and the representation invariant (thorough tier: about 130 s; quick tier checks all its call preconditions and the cheaper clauses). zhash is a function of placement, side, rights and e.p. file only, which gives the transposition clause.",
+   note="The Zobrist tables are arbitrary (uninterpreted) so the proof holds for any table contents. UndoMove's hash pop is covered by C03's scenario. The fold over 64 squares is kept opaque in callers (memoised through control-flow merges).",
+   ref="DESIGN.md section 5 C04"),
+ "C05": dict(
+   text="Proof: for every board satisfying the representation invariant and validity and every one of the 2^15 encodings (symbolic 16-bit move), IsPseudoLegal(m) == pseudo(pos, m) of the rule specification, using the attack-table contracts of C12 and IsAttacked's contract. The check found defect F2 (promotion bits ignored), repaired by a fix: commit.",
+   note="The generator side (every generator emits exactly the pseudo set) is C01; the picker/UCI gates that call IsPseudoLegal are not yet under contract.",
+   ref="DESIGN.md section 5 C05"),
+ "C10": dict(
+   text="Proof of the counting clause: Threefold returns min(3, 1 + number of earlier history entries at distances 4, 6, 8, ... equal to the current hash) for histories of any length (loop invariant against an inductively specified count); ResetHash leaves a one-entry history; MakeMove/MakeNullMove push exactly one entry and keep earlier entries (history clauses).",
+   note="Equality of hashes stands for equality of positions modulo Zobrist collisions (probabilistic, cannot be proved). That positions cannot recur at distance 2 and that entries at odd distances have the other side to move are not mechanised in this revision. axioms occUnfold/occRange are the inductive definition of the count (trusted).",
+   ref="DESIGN.md section 5 C10"),
  "C12": dict(
    text="Proof for all 64 squares and all 2^64 occupancies: calcRook/BishopAttacks equal the coordinate ray walk (loops unrolled 7 with unwinding assertions); the magic tables are proved filled by the package initialiser (loop invariants over the carry-rippler subset enumeration, pointwise in an arbitrary (square, occupancy)), using per-square no-destructive-collision and mask-irrelevance lemmas over the constant tables of the working tree, hence RookMoves/BishopMoves == ray walk for every occupancy; king/knight tables and pawn shift formulas equal the set-wise geometric definitions, which are linked to the coordinate definitions by lemmas; initInBetween is proved to fill InBetween[a][b] (ends disregarded) with exactly the squares strictly between aligned squares and nothing otherwise (4 nested loop invariants, inner walk unrolled). A mechanical SSA scan shows the tables have no other writers.",
    note="Trusted: coordinate definitions in spec/geom.smt2 (walkDir, kingAtt, knightAtt, pawnAtt, between); Go runs init before use. Termination of the init loops is not proved.",
